@@ -9,7 +9,9 @@ DEFAULT_CHECKS = ['--bounds-check', '--pointer-check', '--pointer-overflow-check
                   '--div-by-zero-check', '--conversion-check', '--undefined-shift-check', '--float-overflow-check',
                   '--nan-check', '--pointer-primitive-check']
 # nan-check / float-overflow are noisy for code that legitimately handles NaN; they are off unless a query asks.
-DEFAULT_CHECKS = [c for c in DEFAULT_CHECKS if c not in ('--nan-check', '--float-overflow-check', '--pointer-primitive-check')]
+DEFAULT_CHECKS = [c for c in DEFAULT_CHECKS if c not in ('--nan-check', '--float-overflow-check', '--pointer-primitive-check', '--conversion-check')]
+# --conversion-check also flags signed->unsigned conversions, which are well defined in C++ (size_t(-1) idiom); queries
+# that convert floats to integers ask for it explicitly with 'flags --conversion-check'.
 
 class QueryResult:
     def __init__(self, name):
@@ -42,7 +44,7 @@ class UnitBuilder:
         for (kind, path) in self.uspec.tus:
             if kind == 'header':
                 tu = os.path.join(self.workdir, 'tu_%s.cpp' % re.sub(r"\W", '_', path))
-                with open(tu, 'w') as f: f.write('#include "%s"\n' % path)
+                with open(tu, 'w') as f: f.write('\n'.join(self.uspec.tu_pre) + '\n#include "%s"\n' % path)
             else:
                 tu = os.path.join('/repo', path)
             for filt in self.uspec.filters:
@@ -176,7 +178,7 @@ def run_query(builder, q, vars_, tier, workroot):
                 res.reason = 'bodiless function %s is not replaced by a contract' % s; return res
         timeout = q.timeout or (180 if tier == 'quick' else 900)
         gb1 = os.path.join(qdir, 'a.gb'); gb2 = os.path.join(qdir, 'b.gb')
-        rc, so, se, dt = run(['goto-cc', '-I' + SHIMS, '--function', 'harness', cfile, '-o', gb1], 120)
+        rc, so, se, dt = run(['goto-cc', '-I' + SHIMS] + list(uspec.cflags) + ['--function', 'harness', cfile, '-o', gb1], 120)
         if rc != 0:
             res.reason = 'goto-cc failed: ' + (so + se)[-1500:]; return res
         if q.pre_unwind:
@@ -215,7 +217,7 @@ def run_query(builder, q, vars_, tier, workroot):
         gi = ['goto-instrument', '--dfcc', 'harness']
         if not q.no_enforce: gi += ['--enforce-contract', target]
         for r in sorted(replace): gi += ['--replace-call-with-contract', r]
-        gi += ['--apply-loop-contracts', gb1, gb2]
+        gi += ([] if q.no_loop_contracts else ['--apply-loop-contracts']) + [gb1, gb2]
         rc, so, se, dt = run(gi, 300)
         open(os.path.join(qdir, 'instrument.log'), 'w').write(' '.join(gi) + '\n' + so + se)
         if rc != 0:
